@@ -587,7 +587,7 @@ func init() {
 		ID: "C10", Level: "exploration",
 		Rule:     "ALL byte strings of length 0..n (n=5 quick, 6 thorough) over the 26-byte alphabet {a 1 0 x e . + - = ! < & | / \" ' ` \\ SP LF CR TAB ( { 0xC3 NUL} (one byte per lexer branch), each tokenised until end-of-input was returned 3 times, checked by a span-consistency oracle (positions inside the source, literal = source slice, gaps only white space/comments, no overlap, keyword classification, operator/identifier maximal munch, after-newline <=> LF in gap, stable end-of-input at len(src)); plus all sequences of <=3 (thorough: 4) of 63 well-formed lexeme fragments x all separator combinations compared token-by-token with an independent tokenizer. Every enumerated input is distinct; all are counted as non-trivial because each exercises the cursor/position bookkeeping (the empty input included once)",
 		Assume:   []string{"line model: LF ends a line; a lone CR in a gap is don't-care for the after-newline flag (property does not define it)", "columns are byte columns", "position base calibrated on the token of the input \"a\""},
-		QuickSec: 150, ThorSec: 1200, Run: c10Run, Replay: c10Replay,
+		QuickSec: 300, ThorSec: 1800, Run: c10Run, Replay: c10Replay,
 		Evals: "inputs", Nontriv: "nontrivial_inputs",
 	})
 }
